@@ -248,7 +248,7 @@ func (fx *Fx) runLoop(st *State, lp *loopParts) {
 			head.havocHeap(k)
 		}
 	}
-	if ms.emits || ms.all {
+	if ms.emits || ms.opaque || ms.all {
 		head.havocLog()
 		head.havocHeap("NC")
 	}
